@@ -330,11 +330,25 @@ def _run(ctx):
                 for k_, o in enumerate(a[3:]):
                     sem.set_out(it, o, 70 + k_)
                 return 0
+            bo_ = sem.field_offsets(P, "carquet_buffer")
+
+            def b_app(ev, a, it):
+                # the growable buffer keeps its fill: code may read `buffer.size` instead of carrying a running offset
+                ev.append(("append", getattr(a[1], "base", a[1]), a[2]))
+                if isinstance(a[0], sem.Ptr) and isinstance(a[0].off, int) and isinstance(a[2], int):
+                    k_ = (a[0].base, a[0].off + bo_["size"])
+                    cur = it.heap.get(k_, 0)
+                    it.heap[k_] = cur + a[2] if isinstance(cur, int) else sem.U
+                return 0
+
+            def b_clr(ev, a, it):
+                if isinstance(a[0], sem.Ptr) and isinstance(a[0].off, int):
+                    it.heap[(a[0].base, a[0].off + bo_["size"])] = 0
+                return 0
             args = [sem.Ptr("w", 0, 1), sem.Ptr("data_out", 0, 8), sem.Ptr("size_out", 0, 8), 10]
             ret, ev, heap = sem.run(P, rg, args, heap0=heap0, single=True, max_forks=64, hooks={
                 "carquet_column_writer_finalize": fin,
-                "carquet_buffer_append": lambda ev, a, it: ev.append(("append", getattr(a[1], "base", a[1]), a[2])) or 0,
-                "carquet_buffer_clear": lambda ev, a, it: 0})
+                "carquet_buffer_append": b_app, "carquet_buffer_clear": b_clr})
             run = 5000
             for i in range(N):
                 got_off = heap.get(("ci", i * isz + io["file_offset"]))
